@@ -16,6 +16,7 @@ import (
 	"github.com/idena-network/idena-go/core/state/snapshot"
 	"github.com/idena-network/idena-go/crypto"
 	"github.com/idena-network/idena-go/crypto/ecies"
+	"github.com/idena-network/idena-go/log"
 	"github.com/idena-network/idena-go/protocol"
 
 	"verif/sim/scen"
@@ -36,6 +37,7 @@ func init() {
 		QuickSecs:    60,
 		ThoroughSecs: 1500,
 		MaxChoices:   400000,
+		DeadlockPred: "C12:hang",
 		Run:          runC12,
 	})
 }
@@ -58,7 +60,9 @@ type c12run struct {
 	txs    []*types.Transaction
 	blocks []*types.Block
 	msgs   []c12msg
-	recovered int
+	recovered  int
+	delivering bool
+	lastAuthor *scen.Ident
 }
 
 func runC12(r *vfw.Run) {
@@ -77,9 +81,24 @@ func runC12(r *vfw.Run) {
 		c.l.BringOnline(c.nodes)
 	}
 	c.makeReceiver()
+	// the node's own warnings say why a message was turned down (pengings and pools only log their verdicts)
+	log.Root().SetHandler(log.FuncHandler(func(rec *log.Record) error {
+		if rec.Lvl <= log.LvlWarn && c.delivering {
+			msg := rec.Msg
+			for i := 0; i+1 < len(rec.Ctx); i += 2 {
+				if k, ok := rec.Ctx[i].(string); ok && k == "err" {
+					msg += ": " + c12norm(fmt.Sprint(rec.Ctx[i+1]))
+				}
+			}
+			r.Probe("node_log:" + c12norm(msg))
+		}
+		return nil
+	}))
+	defer log.Root().SetHandler(log.DiscardHandler())
 	// populated vs. empty state: 0..40 honest rounds before and between attacks
 	phases := 1 + r.Choose("c12.phases", 4)
 	for ph := 0; ph < phases; ph++ {
+		c.seedFlips()
 		rounds := []int{0, 1, 3, 8, 20, 40}[r.Choose("c12.rounds", 6)]
 		for i := 0; i < rounds; i++ {
 			if !c.honestRound() {
@@ -99,6 +118,30 @@ func runC12(r *vfw.Run) {
 		}
 	}
 	c.finish()
+}
+
+// seedFlips lets a few identities submit flips, so that flip keys and key packages of theirs are admissible.
+func (c *c12run) seedFlips() {
+	if c.r.Choose("c12.seedflips", 3) == 0 {
+		return
+	}
+	for _, id := range c.s.Ids {
+		if c.r.Choose("c12.seedflip", 2) == 0 {
+			continue
+		}
+		if tx := c.s.FlipTx(c.nodes[0], id, c.r.Choose("c12.flipk", 50)); tx != nil {
+			any := false
+			for _, n := range c.nodes {
+				if c.s.Submit(n, tx) == nil {
+					any = true
+				}
+			}
+			if any {
+				c.s.NoteAccepted(tx)
+				c.r.Probe("flip_submitted")
+			}
+		}
+	}
 }
 
 func (c *c12run) finish() {
@@ -383,6 +426,25 @@ func (c *c12run) hostileTxAfter(body []*types.Transaction, inBlock bool) *types.
 	return signed
 }
 
+// flipAuthor prefers an identity that has submitted flips in the current epoch (only their keys are accepted).
+func (c *c12run) flipAuthor() *scen.Ident {
+	if c.lastAuthor != nil && c.r.Choose("c12.sameauthor", 2) == 0 {
+		return c.lastAuthor // a second, different message of the same author
+	}
+	var id *scen.Ident
+	for i := 0; i < 6; i++ {
+		id = c.pickIdent()
+		ok := false
+		c.victim.Do(func() { ok = len(c.victim.App.State.GetIdentity(id.Addr).Flips) > 0 })
+		if ok {
+			c.r.Probe("key_message_from_flip_author")
+			c.lastAuthor = id
+			break
+		}
+	}
+	return id
+}
+
 // fundedIdent prefers a sender that can pay a fee on the victim's state.
 func (c *c12run) fundedIdent() *scen.Ident {
 	var id *scen.Ident
@@ -434,7 +496,11 @@ func (c *c12run) hostileProposal() (*types.BlockProposal, string) {
 	}
 	what := ""
 	h := cp.Block.Header.ProposedHeader
-	switch r.Choose("c12.hprop", 8) {
+	op := r.Choose("c12.hprop", 11)
+	if op >= 8 {
+		op = 5
+	}
+	switch op {
 	case 0, 1, 2:
 		// hostile transactions in the body, tx hash recomputed so that validation reaches them
 		k := 1 + r.Choose("c12.hprop.ntx", 3)
@@ -452,14 +518,32 @@ func (c *c12run) hostileProposal() (*types.BlockProposal, string) {
 		h.Flags = types.BlockFlag(r.Choose("c12.hprop.flags", 1<<16))
 		what = "upgrade-and-flags"
 	case 5:
-		h.SeedProof = c.drawBytes("c12.hprop.seedproof")
-		h.OfflineAddr = nil
-		if r.Choose("c12.hprop.offline", 2) == 0 {
-			a := c.pickIdent().Addr
-			h.OfflineAddr = &a
-			h.Flags |= types.OfflinePropose
+		if r.Choose("c12.hprop.seedordetector", 5) == 0 {
+			h.SeedProof = c.drawBytes("c12.hprop.seedproof")
+			what = "seed-proof"
+			break
 		}
-		what = "seed-proof-offline"
+		// offline-detector flags with every kind of address, everything else left valid
+		h.Flags &^= types.OfflinePropose | types.OfflineCommit
+		h.Flags |= []types.BlockFlag{types.OfflinePropose, types.OfflineCommit, types.OfflinePropose | types.OfflineCommit}[r.Choose("c12.hprop.offlineflags", 3)]
+		h.OfflineAddr = nil
+		if r.Choose("c12.hprop.offlineaddr", 5) != 0 {
+			a := c.pickIdent().Addr
+			// prefer an identity that is online on the victim
+			var online []common.Address
+			c.victim.Do(func() {
+				for _, x := range c.s.AllActors() {
+					if c.victim.App.ValidatorsCache.IsOnlineIdentity(x.Addr) {
+						online = append(online, x.Addr)
+					}
+				}
+			})
+			if len(online) > 0 && r.Choose("c12.hprop.offlineonline", 4) != 0 {
+				a = online[r.Choose("c12.hprop.offlinewho", len(online))]
+			}
+			h.OfflineAddr = &a
+		}
+		what = "offline-flags"
 	case 6:
 		h.IpfsHash = c.drawBytes("c12.hprop.ipfshash")
 		h.TxBloom = c.drawBytes("c12.hprop.bloom")
@@ -557,7 +641,7 @@ func (c *c12run) honestMessage() *c12msg {
 		b, _ := f.ToBytes()
 		return &c12msg{"flip", protocol.VerifFlipBody, b, -1}
 	case 10:
-		id := c.pickIdent()
+		id := c.flipAuthor()
 		k := &types.PublicFlipKey{Key: c.drawBytes("c12.fkey.key"), Epoch: uint16(int(c.victim.App.State.Epoch()) + r.Choose("c12.fkey.ep", 3) - 1)}
 		if r.Choose("c12.fkey.real", 2) == 0 {
 			kk, _ := crypto.ToECDSA(crypto.Keccak256([]byte("c12-flip-key"), id.Addr[:]))
@@ -572,8 +656,11 @@ func (c *c12run) honestMessage() *c12msg {
 		}
 		return &c12msg{"flip-key", code, b, -1}
 	case 11:
-		id := c.pickIdent()
-		k := &types.PrivateFlipKeysPackage{Data: c.drawBytes("c12.kpkg.data"), Epoch: uint16(int(c.victim.App.State.Epoch()) + r.Choose("c12.kpkg.ep", 3) - 1)}
+		id := c.flipAuthor()
+		k := &types.PrivateFlipKeysPackage{Data: c.drawBytes("c12.kpkg.data"), Epoch: c.victim.App.State.Epoch()}
+		if r.Choose("c12.kpkg.otherepoch", 4) == 0 {
+			k.Epoch = uint16(int(k.Epoch) + 2*r.Choose("c12.kpkg.ep", 2) - 1)
+		}
 		k, _ = types.SignFlipKeysPackage(k, id.Key)
 		b, _ := k.ToBytes()
 		return &c12msg{"key-package", protocol.VerifFlipKeysPackage, b, -1}
@@ -696,9 +783,42 @@ func (c *c12run) damageBytes(b []byte, kind string) ([]byte, string) {
 	}
 }
 
+// keyScript: an author publishes a key package (or flip key), then a different one for the same epoch, and the
+// peer announces / asks for them through push and pull - all messages intact.
+func (c *c12run) keyScript() {
+	r := c.r
+	id := c.flipAuthor()
+	ep := c.victim.App.State.Epoch()
+	var hashes []common.Hash128
+	for i := 0; i < 2+r.Choose("c12.script.n", 2); i++ {
+		if r.Choose("c12.script.pkg", 3) != 0 {
+			k := &types.PrivateFlipKeysPackage{Data: c.drawBytes("c12.kpkg.data"), Epoch: ep}
+			k, _ = types.SignFlipKeysPackage(k, id.Key)
+			b, _ := k.ToBytes()
+			hashes = append(hashes, k.Hash128())
+			c.deliver(&c12msg{"script-key-package", protocol.VerifFlipKeysPackage, b, -1}, "intact", protocol.VerifFrame(protocol.VerifFlipKeysPackage, b))
+		} else {
+			kk, _ := crypto.ToECDSA(crypto.Keccak256([]byte("c12-flip-key"), id.Addr[:], []byte{byte(i)}))
+			k := &types.PublicFlipKey{Key: crypto.FromECDSA(kk), Epoch: ep}
+			k, _ = types.SignFlipKey(k, id.Key)
+			b, _ := k.ToBytes()
+			c.deliver(&c12msg{"script-flip-key", protocol.VerifFlipKey, b, -1}, "intact", protocol.VerifFrame(protocol.VerifFlipKey, b))
+		}
+	}
+	for _, h := range hashes {
+		b := protocol.VerifPushHashBytes(5, h) // key package
+		code := []uint64{protocol.VerifPush, protocol.VerifPullCode}[r.Choose("c12.script.pushpull", 2)]
+		c.deliver(&c12msg{"script-push-pull-key-package", code, b, -1}, "intact", protocol.VerifFrame(code, b))
+	}
+}
+
 // attack delivers one message and then does what the node's loops would do with it.
 func (c *c12run) attack() {
 	r := c.r
+	if r.Choose("c12.script", 10) == 0 {
+		c.keyScript()
+		return
+	}
 	m := c.honestMessage()
 	op := "intact"
 	code, payload := m.code, m.payload
@@ -769,6 +889,7 @@ func (c *c12run) deliver(m *c12msg, op string, frame []byte) {
 	stage := "handle"
 	var got *types.Block
 	var verr error
+	c.delivering = true
 	pv, st := v.Do(func() {
 		calls, herr = c.rx.Deliver(frame)
 		c.rx.DrainOutgoing()
@@ -785,6 +906,7 @@ func (c *c12run) deliver(m *c12msg, op string, frame []byte) {
 		}
 		c.rx.DrainOutgoing()
 	})
+	c.delivering = false
 	el := time.Since(t0)
 	runtime.ReadMemStats(&ms1)
 	alloc := ms1.TotalAlloc - ms0.TotalAlloc
